@@ -101,6 +101,12 @@ func MuxScenarios(thorough bool) []MuxScenario {
 	for _, p := range []int{1, 2, 3} {
 		sc = append(sc, MuxScenario{Name: fmt.Sprintf("core-d%d-A-p%d", cd, p), Period: p, Setup: setupA, Alpha: muxCoreAlpha, Depth: cd, Dedup: true})
 	}
+	// every retransmit period 1..64 (the default is 40: option values beyond it matter too): first
+	// emission, explicit tables before it, RAP forcing
+	for p := 1; p <= 64; p++ {
+		sc = append(sc, MuxScenario{Name: fmt.Sprintf("periods-d3-p%d", p), Period: p, Setup: setupA, Alpha: []MOp{opDataA1, opDataARAI, opTables}, Depth: 3, Dedup: true})
+	}
+	sc = append(sc, MuxScenario{Name: "fix-data1-p50", Period: 50, Setup: setupA, Alpha: []MOp{opDataA1}, Depth: -1, Dedup: true})
 	// fixpoint scenarios: restricted alphabets run to closure (unbounded depth)
 	fixDepth := 9
 	if thorough {
